@@ -343,6 +343,7 @@ func (ocm *outgoingConnManager) run(ch chan<- outgoingConn) {
 					continue
 				}
 				fsm.logger.Debug("open message received on outgoing connection", slog.String("remote", conn.RemoteAddr().String()))
+				verifYield("ocm.beforeHandover", fsm)
 				ch <- outgoingConn{
 					conn: conn,
 					open: fmsg.MsgData.(*bgp.BGPMessage),
